@@ -23,7 +23,7 @@ EXTENDS CodecOps, TLC, Json
 CONSTANTS Mode, Salts, MaxDepth
 
 DimOrder == << "mode", "wi", "wiho", "d", "dho", "sx", "sy", "fsc", "cdf", "pcm", "size", "range",
-               "base", "qm", "npics", "pn", "pb", "minq", "minscaler", "content" >>
+               "base", "qm", "npics", "pn", "pb", "minq", "minscaler", "content", "colour" >>
 N == Len(DimOrder)
 
 Dom == [ mode      |-> << "hq_lossless", "hq_lossy", "ld_lossy" >>,
@@ -45,7 +45,10 @@ Dom == [ mode      |-> << "hq_lossless", "hq_lossy", "ld_lossy" >>,
          pb        |-> << "min", "minp1", "small", "q0", "scaler", "edge255", "edge256" >>,
          minq      |-> << 0, 3, 20 >>,
          minscaler |-> << 1, 2, 3 >>,
-         content   |-> << "random", "zeros", "max", "checker", "mid", "impulse" >> ]
+         content   |-> << "random", "zeros", "max", "checker", "mid", "impulse" >>,
+         \* colour description on top of the base format's: unchanged / RGB matrix only / PQ transfer function only /
+         \* the SD-625 preset triple / HDTV primaries with the RGB matrix (a preset's primaries+transfer, not its matrix)
+         colour    |-> << "base", "rgb_matrix", "pq_transfer", "sd625", "hdtv_rgb" >> ]
 
 Default == [dim \in {DimOrder[i] : i \in 1..N} |-> Dom[dim][1]]
 
@@ -141,6 +144,7 @@ ChoosePictureBytes == stage = 17 /\ Choose(17)
 ChooseMinQindex == stage = 18 /\ Choose(18)
 ChooseMinScaler == stage = 19 /\ Choose(19)
 ChooseContent == stage = 20 /\ Choose(20)
+ChooseColour == stage = 21 /\ Choose(21)
 
 Predict(c) ==
   [ set |-> TRUE,
@@ -160,7 +164,7 @@ Finish ==
 Next == \/ ChooseMode \/ ChooseWavelet \/ ChooseWaveletHO \/ ChooseDepth \/ ChooseDepthHO
         \/ ChooseSlicesX \/ ChooseSlicesY \/ ChooseFragment \/ ChooseSubsampling \/ ChooseCodingMode
         \/ ChooseSize \/ ChooseRange \/ ChooseBase \/ ChooseQuantMatrix \/ ChooseNumPictures
-        \/ ChooseNumbering \/ ChoosePictureBytes \/ ChooseMinQindex \/ ChooseMinScaler \/ ChooseContent
+        \/ ChooseNumbering \/ ChoosePictureBytes \/ ChooseMinQindex \/ ChooseMinScaler \/ ChooseContent \/ ChooseColour
         \/ Finish
 
 Spec == Init /\ [][Next]_vars
